@@ -300,7 +300,7 @@ class MutateModel:
                     w = parent(f, wi) if isinstance(wi, ast.withitem) else None
                     self.writes.append({"call": c, "mode": mode, "with": w if isinstance(w, ast.With) else None,
                                         "as": wi.optional_vars.id if isinstance(wi, ast.withitem) and isinstance(wi.optional_vars, ast.Name) else None,
-                                        "target": c.args[0] if c.args else None, "node": cfg_node_of(cfg, f, c)})
+                                        "target": inline(c.args[0], f) if c.args else None, "node": cfg_node_of(cfg, f, c)})
         tries = [t for t in body_walk(f.node) if isinstance(t, ast.Try) and any(n is self.yield_ for st in t.body for n in walk_no_nested(st))]
         self.try_ = one(tries, f"try statement around the yield in {MUTATE}")
 
